@@ -10,6 +10,11 @@
 (* environment at most once per second; the replay renders on fresh threads, *)
 (* and a few histories on one thread with that second waited out.)           *)
 (***************************************************************************)
+(* Time is environment state as well: a date is the instant of its own encode *)
+(* call - every encode reads the clock (`clock` ticks with every action), so  *)
+(* the instants rendered by successive encodes strictly increase, down to the *)
+(* last digit of a %3f / %6f / %9f fraction (the replay places every rendered *)
+(* instant between the clock readings around its call).                      *)
 (* The process is environment state, too: after a fork the child is another  *)
 (* process and {P} / {pid} there render the child's id - whatever the parent *)
 (* rendered, built or cached before.                                         *)
@@ -21,21 +26,22 @@ CONSTANTS MaxForks,
           MaxOps
 VARIABLES zone,        \* the environment's local zone
           built,       \* kinds for which an encoder exists (built under the zone of that moment)
+          clock,       \* logical time: ticks with every action
           gen,         \* how many forks lie between the original process and the one that executes the history now
           hist
-vars == <<zone, built, gen, hist>>
+vars == <<zone, built, clock, gen, hist>>
 
-Init == zone \in Zones /\ built = {} /\ gen = 0 /\ hist = <<[op |-> "zone", z |-> zone]>>
+Init == zone \in Zones /\ built = {} /\ gen = 0 /\ clock = 0 /\ hist = <<[op |-> "zone", z |-> zone]>>
 SetZone(z) == /\ z # zone /\ zone' = z /\ hist' = Append(hist, [op |-> "zone", z |-> z]) /\ UNCHANGED <<built, gen>>
 Build(k) == /\ k \notin built /\ built' = built \cup {k} /\ hist' = Append(hist, [op |-> "build", k |-> k]) /\ UNCHANGED <<zone, gen>>
 \* the zone a date of kind k is rendered in, now
 Rendered(k) == IF k = "utc" THEN "UTC0" ELSE zone
 Encode(k) == /\ k \in built
-             /\ hist' = Append(hist, [op |-> "encode", k |-> k, z |-> Rendered(k), gen |-> gen])
+             /\ hist' = Append(hist, [op |-> "encode", k |-> k, z |-> Rendered(k), gen |-> gen, at |-> clock])
              /\ UNCHANGED <<zone, built, gen>>
 \* fork(): the history continues in the child, with everything the parent had built
 Fork == /\ gen < MaxForks /\ gen' = gen + 1 /\ hist' = Append(hist, [op |-> "fork"]) /\ UNCHANGED <<zone, built>>
-Next == /\ Len(hist) <= MaxOps
+Next == /\ Len(hist) <= MaxOps /\ clock' = clock + 1
         /\ \/ \E z \in Zones : SetZone(z)
            \/ \E k \in Kinds : Build(k) \/ Encode(k)
            \/ Fork
@@ -47,6 +53,8 @@ RECURSIVE LastZone(_, _)
 LastZone(h, i) == IF h[i].op = "zone" THEN h[i].z ELSE LastZone(h, i - 1)
 \* a process id is rendered by the process that encodes: as many forks before the encode as the encode says
 ForksBefore(h, i) == Cardinality({j \in 1..i : h[j].op = "fork"})
+\* successive encodes render strictly increasing instants
+ClockRead == \A i, j \in 1..Len(hist) : (i < j /\ hist[i].op = "encode" /\ hist[j].op = "encode") => hist[i].at < hist[j].at
 PidCurrent == \A i \in 1..Len(hist) : hist[i].op = "encode" => hist[i].gen = ForksBefore(hist, i)
 LocalCurrent == \A i \in 1..Len(hist) : (hist[i].op = "encode" /\ hist[i].k # "utc") => hist[i].z = LastZone(hist, i)
 =============================================================================
